@@ -28,21 +28,41 @@ def _known():
 
 RX_FORLOOP = re.compile(r'\b(FOR|WHILE)\b(?:(?!\bDO\b).)*?\bLOOP\b', re.I | re.S)
 RX_ENDCASE = re.compile(r'\bEND\s+CASE\b', re.I)
-RX_KW_DOT = re.compile(r'\b(IF|WHILE|FOR|FOREACH|CASE|BEGIN|DECLARE|LOOP|END)(\s*\.|\()', re.I)
+RX_KW_DOT = re.compile(r'\b(IF|WHILE|FOR|FOREACH|CASE|BEGIN|DECLARE|LOOP|END) ?(\.|\()', re.I)
 RX_DECL_BEFORE_BEGIN = re.compile(r'\bCREATE\b(?:(?!\bBEGIN\b).)*\bDECLARE\b', re.I | re.S)
+def _block_kw_lexed_as_name(raw):
+    from sqlparse import lexer, tokens as T
+    try:
+        return any(tt is T.Name and v.upper() in ('IF', 'WHILE', 'FOR', 'FOREACH', 'CASE', 'BEGIN', 'DECLARE', 'LOOP', 'END')
+                   for tt, v in lexer.tokenize(raw))
+    except Exception:  # noqa
+        return False
+
+
+# predicate(raw text, keyword skeleton)
 CLASS_PRED = {
-    'for-while-loop-end-loop': lambda s: bool(RX_FORLOOP.search(s)),
-    'end-case-statement': lambda s: bool(RX_ENDCASE.search(s)),
-    'declare-before-begin': lambda s: bool(RX_DECL_BEFORE_BEGIN.search(s)),
-    'block-keyword-before-dot-or-paren': lambda s: bool(RX_KW_DOT.search(s)),
+    'for-while-loop-end-loop': lambda raw, s: bool(RX_FORLOOP.search(s)),
+    'end-case-statement': lambda raw, s: bool(RX_ENDCASE.search(s)),
+    'declare-before-begin': lambda raw, s: bool(RX_DECL_BEFORE_BEGIN.search(s)),
+    'block-keyword-before-dot-or-paren': lambda raw, s: _block_kw_lexed_as_name(raw),
 }
 
 
+def _skeleton(s):
+    """The significant tokens (no whitespace, no comments), upper-cased, joined by single blanks: the classes below are
+    about the SEQUENCE of keywords, whatever layout/comments separate them."""
+    try:
+        return ' '.join(' '.join(v.upper().split()) for v in sc.sig_tokens(s))
+    except Exception:  # noqa
+        return s.upper()
+
+
 def classify(f, known):
-    s = ''.join(map(chr, f.get('input', [])))
+    raw = ''.join(map(chr, f.get('input', [])))
+    s = _skeleton(raw)
     for k in known:
         p = CLASS_PRED.get(k.get('class'))
-        if p and p(s):
+        if p and p(raw, s):
             return k['id']
     return None
 
